@@ -55,7 +55,14 @@ function defaultsSrc(c) {
   if (c.extra) parts.push('zz: 1');
   return `{ ${parts.join(', ')} }`;
 }
-function typeSrc(c) { return `{ ${c.props.map((p) => PROPS[p].decl).join('; ')} }`; }
+// the other spelling of a declared key (identifier <-> quoted, numeric <-> quoted)
+function altDecl(p) { const d = PROPS[p].decl; const m = /^'([A-Za-z_$][\w$]*|\d+)'(\?.*)$/.exec(d); if (m) return m[1] + m[2]; const n = /^([A-Za-z_$][\w$]*|\d+)(\?.*)$/.exec(d); return n ? `'${n[1]}'${n[2]}` : d; }
+function typeSrc(c) {
+  const lit = `{ ${c.props.map((p) => PROPS[p].decl).join('; ')} }`;
+  if (c.ty === 'twice') return `${lit} & { ${c.props.map(altDecl).join('; ')} }`; // every prop declared under both spellings
+  if (c.ty === 'twiceRev') return `{ ${c.props.map(altDecl).join('; ')} } & ${lit}`;
+  return lit;
+}
 
 // how the setup function is written around `props: T = D` (P) ; what another parameter's default is must not matter
 const CTX_DEFAULT = "{ 1: 'ctx1', a: 'ctxa', b: 77, q: 'ctxq', 'c-d': 'ctxcd', d1: d1, f: dfn, m: dfn, fu: dfn }";
@@ -69,6 +76,11 @@ const SETUPS = {
   asyncArrow: (P) => `async (${P}) => () => null`,
 };
 function render(c) {
+  if (c.sp === 'Y') {
+    const entry = c.form === 'shorthand' ? c.name : c.form === 'keyValue' ? `${c.name}: ${c.name}` : `${c.name}() { return ${c.name}; }`;
+    const ty = c.form === 'method' ? `${c.name}?: () => object` : `${c.name}?: object`;
+    return `${PRE}export const A = defineComponent((props: { a?: string } = dflt) => () => <i>{props.a}</i>);\nfunction make(${c.name}: any) {\n  // the helpers are used in this very scope, so the host's hygiene pass has to keep them apart from the parameter\n  const Inner = defineComponent((props: { q?: string } = dflt) => () => <b>{props.q}</b>);\n  return defineComponent((props: { ${ty} } = { ${entry} }) => () => <u />);\n}\nexport const C = make(d1);\n`;
+  }
   if (c.sp === 'O') return `${PRE}export const C = defineComponent(${SETUPS[c.setup](`props: ${typeSrc(c)}`)});\n`;
   if (c.sp === 'L') {
     // leak: a component with static defaults, then one without a default sharing the prop names
@@ -108,6 +120,13 @@ function judge(c, resps) {
   const names = new Names();
   const viol = [];
   const calls = res.calls.filter((x) => x.who === 'vue');
+  if (c.sp === 'Y') {
+    const call = calls[calls.length - 1];
+    const opt = call && call.args[1] && call.args[1].props && call.args[1].props[c.name];
+    const got = opt && Object.prototype.hasOwnProperty.call(opt, 'default') ? (c.form === 'method' ? opt.default() : resolved(opt)) : '«none»';
+    if (got !== env.bound.d1) viol.push({ clause: 'default-value', diff: 'default:other-binding', msg: `the default refers to the local binding ${c.name}, but Vue resolves ${typeof got === 'function' ? 'a function (' + got.name + ')' : JSON.stringify(show(got, names))}`, observed: show(got, names) });
+    return { viol, obs: 'Y:' + (got === env.bound.d1), clauses: ['default-value'] };
+  }
   if (c.sp === 'O') {
     const props = (calls[0] && calls[0].args[1] && calls[0].args[1].props) || {};
     const leaked = c.props.filter((p) => props[keyOf(p)] && Object.prototype.hasOwnProperty.call(props[keyOf(p)], 'default'));
@@ -199,6 +218,10 @@ function spaces(tier) {
           }
           yield { sp: 'O', props, forms: props.map(() => 'absent'), setup };
         }
+        // every prop declared under two spellings (intersection): each declaration gets the default
+        for (const props of propSets(2)) for (const ty of ['twice', 'twiceRev']) { yield { sp: 'D', props, forms: props.map(canon), extra: false, ty }; yield { sp: 'D', props, forms: props.map((p) => (FORMS.quotedKey.src(p) && PROPS[p].kind === 'val' ? 'quotedKey' : canon(p))), extra: false, ty }; }
+        // hygiene: a default that refers to a local binding named like a helper the transform imports
+        for (const name of ['_mergeDefaults', '_createVNode']) for (const form of ['shorthand', 'keyValue', 'method']) yield { sp: 'Y', name, form };
       },
     },
     {
@@ -210,6 +233,8 @@ function spaces(tier) {
 }
 
 function* shrink(c) {
+  if (c.sp === 'Y') return;
+  if (c.ty) yield Object.assign({}, c, { ty: undefined });
   if (c.setup && c.setup !== 'arrow') yield Object.assign({}, c, { setup: 'arrow' });
   if (c.sp === 'O') { for (let i = 0; i < c.props.length; i++) if (c.props.length > 1) yield Object.assign({}, c, { props: c.props.slice(0, i).concat(c.props.slice(i + 1)), forms: c.forms.slice(1) }); return; }
   if (c.sp === 'L') { if (c.mid !== 'none') yield Object.assign({}, c, { mid: 'none' }); for (let i = 0; i < c.props.length; i++) if (c.props.length > 1) yield Object.assign({}, c, { props: c.props.slice(0, i).concat(c.props.slice(i + 1)), forms: c.forms.slice(0, i).concat(c.forms.slice(i + 1)) }); return; }
@@ -225,6 +250,6 @@ module.exports = {
   rule: 'complete product prop map (≤2, thorough ≤3, of plain / quoted / hyphenated / function-typed / method props) × per-prop default entry form (absent, literal, quoted key, computed-literal key, identifier, member, call, shorthand, getter, function identifier, arrow value, function expression, method, computed-literal method, async method, computed identifier key, computed expression key) × extra key, plus whole-default dynamic forms (identifier, spread, call, spread + static) and two-component modules; each state is transformed by the real visitor with resolveType on and executed: the harness evaluates the written default object W itself, and for every prop the value Vue\'s resolvePropValue algorithm yields from the emitted props option (factories called iff Vue would call them; the emitted mergeDefaults call evaluated with the transcribed algorithm) must equal W[k] (functions compared by result; props without a written default have none). Distinct = distinct resolved-default vectors.',
   assumptions: ['Vue resolvePropValue / mergeDefaults transcribed in the mock runtime', 'defaults generated well-typed (function-valued defaults only for function-typed props)', 'SWC TypeScript parser; TS eraser of the driver'],
   spaces, requests, judge, shrink,
-  caseKey: (c) => (c.sp === 'O' ? `O:${SETUPS[c.setup]('props: ' + typeSrc(c))}` : c.sp === 'L' ? `L:${typeSrc(c)} = ${defaultsSrc(c)} ; ${c.mid === 'dynamic' ? 'dynamic ; ' : ''}none` : `D:${typeSrc(c)} = ${defaultsSrc(c)}${c.setup && c.setup !== 'arrow' ? ' in ' + c.setup : ''}`),
-  depth: (c) => c.props.length + c.forms.filter((f) => f !== 'absent').length,
+  caseKey: (c) => (c.sp === 'Y' ? `Y:local ${c.name} as ${c.form} default` : c.sp === 'O' ? `O:${SETUPS[c.setup]('props: ' + typeSrc(c))}` : c.sp === 'L' ? `L:${typeSrc(c)} = ${defaultsSrc(c)} ; ${c.mid === 'dynamic' ? 'dynamic ; ' : ''}none` : `D:${typeSrc(c)} = ${defaultsSrc(c)}${c.setup && c.setup !== 'arrow' ? ' in ' + c.setup : ''}`),
+  depth: (c) => (c.sp === 'Y' ? 2 : c.props.length + c.forms.filter((f) => f !== 'absent').length),
 };
